@@ -224,6 +224,9 @@ func cells(ks []*kindSpec) []*cell {
 	deliver("interface{}", clConcrete, "[2]int{1,2}", [2]int{1, 2}, [2]int{1, 2}, [2]int{3, 4}, nilK)
 	deliver("interface{}", clConcrete, "VErr{3}", c09t.VErr{Code: 3}, c09t.VErr{Code: 3}, c09t.VErr{Code: 4}, nilK)
 	deliver("interface{}", clConcrete, "int64(0)", int64(0), int64(0), int64(1), nilK)
+	deliver("interface{}", clConcrete, "int64(2^60+1)", int64(1<<60+1), int64(1<<60+1), int64(1<<60+2), int64(1<<60), nilK)
+	deliver("interface{}", clConcrete, "uint64(max)", uint64(1<<64-1), uint64(1<<64-1), uint64(1<<64-2), nilK)
+	deliver("interface{}", clConcrete, "int(2^53+1)", 1<<53+1, 1<<53+1, 1<<53, 1<<53+2, nilK)
 
 	// fmt.Stringer
 	ps, ps2 := &c09t.PStr{N: 5}, &c09t.PStr{N: 6}
